@@ -24,3 +24,20 @@ Definition walk_dists_ok_b (d : data) (r : route) : bool :=
   if rides_transferable d r then true
   else let '(w, a, e, t) := walk_dist_sums (rt_steps r) in
        (rt_tntd r =? w) && (rt_accd r =? a) && (rt_egrd r =? e) && (rt_trdist r =? t).
+
+(* in-vehicle and overall distance: -1 is "unknown" (a ridden path without segment distances); one unknown leg makes both
+   totals unknown, otherwise they are the sums over the steps (true since /repo 3db4e3c, D17: a later leg with distances
+   used to add its metres to the -1 marker). *)
+Definition ivd_step (acc : Z * bool) (s : step) : Z * bool :=
+  let '(sum, unk) := acc in
+  match s with
+  | SUnboard _ _ _ _ _ _ ivd => (sum + ivd, unk || (ivd =? -1))
+  | _ => acc
+  end.
+
+Definition vehicle_dists_ok_b (d : data) (r : route) : bool :=
+  if rides_transferable d r then true
+  else let '(sv, unk) := fold_left ivd_step (rt_steps r) (0, false) in
+       let '(w, _, _, _) := walk_dist_sums (rt_steps r) in
+       if unk then (rt_tivd r =? -1) && (rt_tdist r =? -1)
+       else (rt_tivd r =? sv) && (rt_tdist r =? sv + w).
